@@ -199,12 +199,15 @@ func (c *ConnectorOrchestrator) Update(ctx context.Context, id string, plugin st
 	}
 
 	oldConfig := conn.Config
+	// remember the plugin too: conn is (re)assigned to the updated instance
+	// below, so conn.Plugin in the rollback would already be the NEW plugin
+	oldPlugin := conn.Plugin
 	conn, err = c.connectors.Update(ctx, id, plugin, config)
 	if err != nil {
 		return nil, err
 	}
 	r.Append(func() error {
-		_, err = c.connectors.Update(ctx, id, conn.Plugin, oldConfig)
+		_, err = c.connectors.Update(ctx, id, oldPlugin, oldConfig)
 		return err
 	})
 	err = txn.Commit()
